@@ -395,6 +395,12 @@ func (s *Sim) load(st *State, addr *Term, typ types.Type) *Term {
 		return v
 	}
 	var v *Term
+	// a field of a location into which a whole struct value was stored
+	if addr.Op == "fa" && len(addr.Args) == 1 {
+		if whole, ok := st.heap[addr.Args[0].Key()]; ok && whole.Op != "zero" {
+			return &Term{Op: "fld", Name: addr.Name, Obj: addr.Obj, Type: typ, Args: []*Term{whole}}
+		}
+	}
 	if s.rootFresh(st, addr) {
 		v = zeroTerm(typ)
 	} else {
